@@ -1,8 +1,12 @@
-"""Run registered checks against a seeded change: apply patch to /repo, run, undo.
+"""Run registered checks against a seeded change.
 
-  python -m vf.mutest <seeded-dir> [<Cxx> ...] [--tier quick] [--only substr]
+  python -m vf.mutest <seeded-dir> [<Cxx> ...] [--tier quick] [--only substr] [--in-repo]
 
-Never leaves /repo modified (git checkout -- . in a finally block)."""
+Default: the patch is applied to a scratch git worktree of /repo's HEAD under /tmp and the
+checks run with VERIF_REPO pointing at it (so /repo is never touched and several runs can go
+in parallel); evidence/replays of these runs go to a scratch directory. With --in-repo the
+patch is applied to /repo itself (git -C /repo apply), the checks run exactly as registered,
+and it is undone straight afterwards (git -C /repo checkout -- .) in a finally block."""
 import json
 import os
 import subprocess
@@ -15,22 +19,33 @@ REPO = "/repo"
 
 def main(argv):
     d = os.path.abspath(argv[0])
-    props = [a for a in argv[1:] if a.startswith("C") and len(a) == 3]
+    props = [a for a in argv[1:] if a.startswith("C") and len(a) == 3 and a[1:].isdigit()]
     tier = "quick"
     only = None
     if "--tier" in argv:
         tier = argv[argv.index("--tier") + 1]
     if "--only" in argv:
         only = argv[argv.index("--only") + 1]
+    in_repo = "--in-repo" in argv
     meta_p = os.path.join(d, "meta.json")
     meta = json.load(open(meta_p)) if os.path.exists(meta_p) else {}
     if not props:
         props = [meta.get("property")]
-    st = subprocess.run(["git", "-C", REPO, "status", "--porcelain"], capture_output=True, text=True).stdout.strip()
-    if st:
-        print("refusing: /repo has local modifications:\n" + st)
-        return 2
-    subprocess.check_call(["git", "-C", REPO, "apply", os.path.join(d, "patch.diff")])
+    sid = os.path.basename(d)
+    env = dict(os.environ)
+    env["VERIF_OUT"] = os.path.join("/tmp", "verif-mut-out", sid)
+    if in_repo:
+        st = subprocess.run(["git", "-C", REPO, "status", "--porcelain"], capture_output=True, text=True).stdout.strip()
+        if st:
+            print("refusing: /repo has local modifications:\n" + st)
+            return 2
+        target = REPO
+    else:
+        target = os.path.join("/tmp", "verif-mut-wt", sid)
+        subprocess.run(["git", "-C", REPO, "worktree", "remove", "--force", target], capture_output=True)
+        subprocess.check_call(["git", "-C", REPO, "worktree", "add", "-q", "--detach", target, "HEAD"])
+        env["VERIF_REPO"] = target
+    subprocess.check_call(["git", "-C", target, "apply", os.path.join(d, "patch.diff")])
     results = {}
     try:
         for p in props:
@@ -38,18 +53,21 @@ def main(argv):
             if only:
                 cmd += ["--only", only]
             t0 = time.time()
-            env = dict(os.environ)
-            env["VERIF_OUT"] = os.path.join("/tmp", "verif-mut-out")
             pr = subprocess.run(cmd, cwd=HERE, capture_output=True, text=True, env=env)
             lines = [l for l in pr.stdout.splitlines() if l.startswith(("VIOLATION", "  counterexample", "HARNESS-ERROR", "KNOWN-FINDING")) or " tier=" in l]
-            results[p] = {"exit": pr.returncode, "wall_s": round(time.time() - t0, 1), "lines": lines[:12]}
-            print(p, "exit", pr.returncode, "%.0fs" % (time.time() - t0))
-            for l in lines[:6]:
-                print("   ", l[:300])
+            results[p] = {"exit": pr.returncode, "wall_s": round(time.time() - t0, 1), "lines": [l[:400] for l in lines[:12]]}
+            print(sid, p, "exit", pr.returncode, "%.0fs" % (time.time() - t0))
+            for l in lines[:5]:
+                print("   ", l[:260])
     finally:
-        subprocess.check_call(["git", "-C", REPO, "checkout", "--", "."])
-    out = {"ran": time.strftime("%Y-%m-%d %H:%M"), "tier": tier, "only": only, "results": results}
-    with open(os.path.join(d, "result_%s.json" % tier), "w") as f:
+        if in_repo:
+            subprocess.check_call(["git", "-C", REPO, "checkout", "--", "."])
+        else:
+            subprocess.run(["git", "-C", REPO, "worktree", "remove", "--force", target], capture_output=True)
+        subprocess.run(["rm", "-rf", env["VERIF_OUT"]])
+    out = {"ran": time.strftime("%Y-%m-%d %H:%M"), "tier": tier, "only": only, "mode": "in-repo" if in_repo else "scratch-worktree", "results": results}
+    name = "result_%s%s.json" % (tier, "" if set(props) == {meta.get("property")} else "_" + "_".join(props))
+    with open(os.path.join(d, name), "w") as f:
         json.dump(out, f, indent=1)
     return 0
 
